@@ -85,7 +85,9 @@ type Walker struct {
 	Branch func(env *Env, ifi *ssa.If) (t, f bool)
 	// OnBackEdge is called when the path is about to take a loop back edge.
 	OnBackEdge func(env *Env, from, to *ssa.BasicBlock, trail []*ssa.BasicBlock) (stop bool)
-	MaxStates  int
+	// OnEdge is called for every CFG edge taken (with the env of that edge).
+	OnEdge    func(env *Env, from, to *ssa.BasicBlock, succIdx int) (stop bool)
+	MaxStates int
 	states     int
 	Truncated  bool
 }
@@ -108,6 +110,17 @@ func (w *Walker) Run(from ssa.Instruction, env *Env) {
 	}
 	seen := map[string]bool{}
 	w.walk(b, i, env, nil, seen)
+}
+
+// RunBlock explores all paths starting at the first instruction of block b.
+func (w *Walker) RunBlock(b *ssa.BasicBlock, env *Env) {
+	if env == nil {
+		env = newEnv()
+	}
+	if w.MaxStates == 0 {
+		w.MaxStates = 20000
+	}
+	w.walk(b, 0, env, nil, map[string]bool{})
 }
 
 func (w *Walker) walk(b *ssa.BasicBlock, i int, env *Env, trail []*ssa.BasicBlock, seen map[string]bool) {
@@ -154,6 +167,9 @@ func (w *Walker) walk(b *ssa.BasicBlock, i int, env *Env, trail []*ssa.BasicBloc
 			continue
 		}
 		ne := env.clone()
+		if w.OnEdge != nil && w.OnEdge(ne, b, s, k) {
+			continue
+		}
 		if s.Dominates(b) { // back edge
 			if w.OnBackEdge != nil && w.OnBackEdge(ne, b, s, trail) {
 				continue
